@@ -718,7 +718,7 @@ pub fn check(prop: &str, tier: &str) -> i32 {
     let xr = xval::xval(prop, &all_outputs);
     rep.validated = xr.validated;
     for e in xr.errors {
-        rep.machinery.push(e);
+        rep.machinery_fatal.push(e);
     }
     rep.set("plans", json!(n_plans));
     rep.assumptions = vec![
